@@ -23,6 +23,10 @@ type PropCfg struct {
 	Assumptions []string `json:"assumptions"`
 	Unproved    []string `json:"unproved"` // clauses of the statement not decided by obligations
 	Bounded     []string `json:"bounded"`
+	PurityPkgs  []string `json:"purity_pkgs"`
+	PurityFuncs []string `json:"purity_funcs"`
+	OnlyKinds   []string `json:"only_kinds"`
+	Claimed     *bool    `json:"claimed,omitempty"`
 }
 
 type KnownFinding struct {
@@ -162,6 +166,22 @@ func main() {
 					o.Name += "[" + tags + "]"
 				}
 			}
+		}
+		if cfg != nil && vi == 0 && len(cfg.PurityPkgs) > 0 && *only == "" {
+			w.PurityScan(cfg.PurityPkgs, cfg.PurityFuncs)
+		}
+		if cfg != nil && len(cfg.OnlyKinds) > 0 {
+			keep := map[string]bool{}
+			for _, k := range cfg.OnlyKinds {
+				keep[k] = true
+			}
+			var kept []*Obligation
+			for _, o := range w.Obls {
+				if keep[o.Kind] {
+					kept = append(kept, o)
+				}
+			}
+			w.Obls = kept
 		}
 		// prepare function obligations (records lemma usage)
 		for _, o := range w.Obls {
